@@ -104,6 +104,8 @@ struct Inner<C> {
 
 struct PublishInfo {
     inflight: HashSet<num::NonZeroU16>,
+    /// QoS 2 packet ids waiting for PUBREL
+    inflight_rel: HashSet<num::NonZeroU16>,
     aliases: HashMap<num::NonZeroU16, ByteString>,
 }
 
@@ -129,6 +131,7 @@ where
                 info: RefCell::new(PublishInfo {
                     aliases: HashMap::default(),
                     inflight: HashSet::default(),
+                    inflight_rel: HashSet::default(),
                 }),
             }),
         }
@@ -326,7 +329,7 @@ where
                 Ok(None)
             }
             Decoded::Packet(Packet::PublishRelease(ack), size) => {
-                if self.inner.info.borrow().inflight.contains(&ack.packet_id) {
+                if self.inner.info.borrow_mut().inflight_rel.remove(&ack.packet_id) {
                     let packet_id = ack.packet_id.get();
                     self.inner.control_pkt(ProtocolMessage::pubrel(ack, size), packet_id).await
                 } else {
@@ -528,6 +531,8 @@ where
             // exchange is completed if publish is refused, no PUBREL follows
             if ack.reason_code as u8 >= 0x80 {
                 inner.info.borrow_mut().inflight.remove(&id);
+            } else {
+                inner.info.borrow_mut().inflight_rel.insert(id);
             }
             codec::Packet::PublishReceived(codec::PublishAck {
                 packet_id: id,
